@@ -70,7 +70,19 @@ def _d19e(case, observed, finding):
                 and any(o[0] == 'disk' and o[1] in ('replace', 'unlink', 'mkdir') for o in case['ops'][:observed['step']]))
 
 
+def _d19f(case, observed, finding):
+    """D19f: a kept iterator was resumed after another operation on the same stream object had moved or closed the file
+    handle it is suspended on (the model's `undisturbed` is false for that iterator), and the deviating answer is exactly
+    the one the model derives from the shared handle (shifted / missing pieces, or ValueError for a closed file)"""
+    return bool(isinstance(observed, dict) and case.get('live')
+                and observed.get('op', [None])[0] == 'iterNext'
+                and observed.get('undisturbed') is False
+                and observed.get('observed') is not None
+                and observed.get('observed') == observed.get('model_answer'))
+
+
 MATCHERS = {'stale_read_ahead_after_inplace_rewrite': _d19b,
+            'resumed_iterator_shares_its_file_handle': _d19f,
             'assertion_error_from_stale_handle_of_other_size': _d19e}
 
 DOCUMENTED = ('ValueError', 'ReadError', 'VerifyFileSizeError')
@@ -93,7 +105,10 @@ RULE = ('case = (piece length, file sizes >= 1, handle cap, wrong stored hashes,
         'mkdir; exhaustive A; X; B (A, B reduced read alphabet, X every change of every file) on two '
         'layouts, random longer histories with ~35 % disk changes (a quarter on initially damaged disks); '
         'non-trivial there = a reading operation follows a disk change that follows a reading operation, '
-        'no close in between')
+        'no close in between.  live cases: kept iterators as operands — iterStart | iterNext s k | iterDrop s (up to 3 alive) next to '
+        'all other operations; exhaustive iterStart; iterNext 0 a; X; [Y;] iterNext 0 b on three layouts, random histories; every '
+        'history ends with close() while the iterators still exist, then drops them; non-trivial there = a kept iterator is '
+        'advanced after something else was done with the object since its last advance')
 
 READ_OPS = ('iterFull', 'iterAbandon', 'getPiece', 'getPieceHash', 'verifyPiece')
 
@@ -1069,6 +1084,8 @@ def gen_cases(ctx, scale=1.0):
     cases += gen_damaged_fixed(ctx, rng)
     # 1c. histories in which the disk changes between two operations
     cases += gen_dyn_cases(ctx, rng, scale)
+    # 1d. histories with kept (suspended) iterators
+    cases += gen_live_cases(ctx, rng, scale)
     # 2. random longer histories on random layouts (a layout is shared by a batch of histories)
     n_rand = int(ctx.n(3000, 120000) * scale)
     per_layout = 8
@@ -1163,6 +1180,8 @@ def case_view(c):
     v = {k: c[k] for k in ('L', 'sizes', 'cap', 'wrong', 'ops', 'paths', 'cseed', 'single')}
     if damaged(c):
         v['disk'] = disk_of(c)
+    if c.get('live'):
+        v['live'] = True
     if c.get('dyn'):
         v['dyn'] = True
         v['disk'] = disk_of_dyn(c)
@@ -1199,8 +1218,9 @@ def _digest_collision(c, sym, i, contents):
 
 
 def evaluate(ctx, drv, cases):
-    evaluate_static(ctx, drv, [c for c in cases if not c.get('dyn')])
+    evaluate_static(ctx, drv, [c for c in cases if not c.get('dyn') and not c.get('live')])
     evaluate_dyn(ctx, drv, [c for c in cases if c.get('dyn')])
+    evaluate_live(ctx, drv, [c for c in cases if c.get('live')])
 
 
 def evaluate_static(ctx, drv, cases):
@@ -1527,6 +1547,330 @@ def evaluate_dyn(ctx, drv, cases):
                     nopen_reported = True
                     ctx.corr_break('c19.diskHistory:nopen', case, {**where, 'nopen': row['nopen']},
                                    {**where, 'nopen': o['nfd']})
+
+
+# ------------------------------------------------------------------------------------------
+# histories with KEPT iterators (`live` cases): iterStart / iterNext s k / iterDrop s next to the other operations
+
+LIVE_OPS = ('iterStart', 'iterNext', 'iterDrop')
+
+
+def _run_chunk_live(cases):
+    torf = common.import_torf()
+    from torf import _stream
+    wd = common.worker_dir()
+    out = []
+    name = 'T'
+    top = os.path.join(wd, name)
+    _stream.open = _counting_open(top)
+    last_key, contents = None, None
+    for c in cases:
+        L, sizes = c['L'], c['sizes']
+        files = [{'path': p, 'size': s} for p, s in zip(c['paths'], sizes)]
+        key = (L, tuple(sizes), json.dumps(c['paths']), c['cseed'])
+        obs = {'rows': []}
+        its = []
+        try:
+            if key != last_key:
+                last_key = None
+                contents = content.make_tree(wd, name, files, seed=c['cseed'])
+                last_key = key
+            index_of = {os.path.join(top, *f['path']): i for i, f in enumerate(files)}
+            stream = b''.join(contents)
+            t = content.make_torrent(torf, wd, name, files, L)
+            _store(t, sym_orig(L, len(stream), c['wrong']), stream)
+            base = _nfd(top)
+
+            def new_stream():
+                x = _stream.TorrentFileStream(t)
+                if c['cap'] != 10:
+                    x.max_open_files = c['cap']
+                return x
+            tfs = new_stream()
+            obs['cap_seen'] = tfs.max_open_files
+            fresh_cache, fresh_full, pos = {}, None, []
+            for op in c['ops']:
+                _PEAK[0] = 0
+                row = {}
+                if op[0] == 'iterStart':
+                    its.append(tfs.iter_pieces())          # the iterator object stays referenced
+                    pos.append(0)
+                    res, peak = ('none', None), 0
+                elif op[0] == 'iterNext':
+                    got, peak = [], 0
+                    try:
+                        for _ in range(op[2]):
+                            (p, fp, exc) = next(its[op[1]])
+                            got.append(_item(p, exc, index_of))
+                            peak = max(peak, _nfd(top))
+                        res = ('pieces', got)
+                    except StopIteration:
+                        res = ('pieces', got)
+                    except Exception as e:  # noqa  (error KIND is the observable)
+                        res = ('err', _kind(e))
+                    peak = max(peak, _PEAK[0])
+                    # the property itself: the items that follow the ones this iterator has yielded, from a FRESH object
+                    if fresh_full is None:
+                        f = new_stream()
+                        fresh_full = [_item(p, exc, index_of) for (p, fp, exc) in f.iter_pieces()]
+                        f.close()
+                        del f
+                    row['fresh'] = ('pieces', fresh_full[pos[op[1]]:pos[op[1]] + op[2]])
+                    pos[op[1]] += len(got)
+                elif op[0] == 'iterDrop':
+                    it = its[op[1]]
+                    its[op[1]] = (x for x in ())          # (a dropped slot stays addressable: next() -> StopIteration)
+                    it.close()
+                    del it                                 # CPython: collected at once (no reference cycle)
+                    pos[op[1]] = 1 << 30                   # a dropped iterator yields nothing more
+                    res, peak = ('none', None), _PEAK[0]
+                else:
+                    res, peak = _do_op(tfs, op, top, index_of)
+                    if op[0] in READ_OPS:
+                        ck = json.dumps(op)
+                        if ck not in fresh_cache:
+                            f = new_stream()
+                            fresh_cache[ck] = _do_op(f, op, top, index_of)[0]
+                            f.close()
+                            del f
+                        row['fresh'] = fresh_cache[ck]
+                row.update({'res': res, 'nfd': _nfd(top) - base, 'peak': max(0, peak - base)})
+                obs['rows'].append(row)
+            del its[:]
+            tfs.close()
+            del tfs
+        except BaseException as e:  # noqa
+            obs['exc'] = f'{type(e).__name__}: {e}'
+            del its[:]
+        out.append((c, obs, contents))
+    return out
+
+
+def live_alphabet(np_, slots):
+    mid = max(1, np_ // 2)
+    A = [['iterFull'], ['iterAbandon', mid], ['getPiece', 0], ['getPiece', mid], ['getPiece', np_ - 1], ['verifyPiece', mid],
+         ['close'], ['ctxExit'], ['iterStart']]
+    for s_ in range(slots):
+        A += [['iterNext', s_, 1], ['iterNext', s_, mid], ['iterNext', s_, np_ + 1], ['iterDrop', s_]]
+    seen, out = set(), []
+    for a in A:
+        k = json.dumps(a)
+        if k not in seen:
+            seen.add(k)
+            out.append(a)
+    return out
+
+
+def _mk_live(rng, L, sizes, ops, cap=10, wrong=(), shape='live', lay=None):
+    """every history ends with close() WHILE the kept iterators still exist, then drops them one by one"""
+    nslots = sum(1 for o in ops if o[0] == 'iterStart')
+    c = _mk(rng, L, sizes, ops, cap=cap, wrong=wrong, shape=shape, lay=lay)        # (_mk appends the final close)
+    c['ops'] += [['iterDrop', s_] for s_ in range(nslots)]
+    c['live'] = True
+    return c
+
+
+def valid_live(ops):
+    n = 0
+    for o in ops:
+        if o[0] == 'iterStart':
+            n += 1
+        elif o[0] in ('iterNext', 'iterDrop') and o[1] >= n:
+            return False
+    return True
+
+
+LIVE_FIXED = [
+    (3, [7, 5, 4], 10),                                       # 16 bytes, 6 pieces; piece 2 and piece 3 straddle files
+    (3, [2, 4, 2], 1),                                        # cap 1: reads in other files evict the iterator's handle
+    (4, [1, 2, 1, 1, 3, 1, 1, 2, 1, 1, 1, 2, 1, 1], 10),      # 14 files > cap + 1
+]
+
+
+def gen_live_cases(ctx, rng, scale=1.0):
+    cases = []
+    for n_lay, (L, sizes, cap) in enumerate(LIVE_FIXED):
+        np_ = npieces(L, sizes)
+        lay = {'paths': layouts.paths_for(len(sizes), rng, nested=False), 'cseed': rng.randrange(1, 1 << 30)}
+        mid = max(1, np_ // 2)
+        X = [x for x in live_alphabet(np_, 2) if x[0] != 'iterDrop' or x[1] == 0]
+        # a kept iterator, advanced, ANYTHING in between (also a second iterator), advanced again
+        for a in (0, 1, 2, mid):
+            for x in X:
+                for b in (1, np_ + 1):
+                    h = [['iterStart'], ['iterNext', 0, a], x, ['iterNext', 0, b]]
+                    if valid_live(h):
+                        cases.append(_mk_live(rng, L, sizes, h, cap=cap, shape=f'live-exhaustive-{len(sizes)}files-cap{cap}', lay=lay))
+        # ... and two things in between (all of them for the first layout, a sample for the others)
+        pairs = [[x, y] for x in X for y in X]
+        if n_lay > 0 and not ctx.thorough:
+            pairs = rng.sample(pairs, min(len(pairs), 120))
+        for (x, y) in pairs:
+            for a in (1, mid):
+                h = [['iterStart'], ['iterNext', 0, a], x, y, ['iterNext', 0, np_ + 1]]
+                if valid_live(h):
+                    cases.append(_mk_live(rng, L, sizes, h, cap=cap, shape=f'live-exhaustive-{len(sizes)}files-cap{cap}', lay=lay))
+    # random histories with up to three kept iterators
+    n_rand = int(ctx.n(1600, 60000) * scale)
+    per_layout = 8
+    maxlen = 14 if ctx.thorough else 9
+    for _ in range(max(1, n_rand // per_layout)):
+        shape, L, sizes = random_layout(rng)
+        np_ = npieces(L, sizes)
+        lay = {'paths': layouts.paths_for(len(sizes), rng, nested=rng.random() < 0.3), 'cseed': rng.randrange(1, 1 << 30)}
+        cap = 10 if rng.random() < 0.5 else rng.choice([0, 1, 2, 3, 12])
+        for _ in range(per_layout):
+            wrong = [rng.randrange(np_)] if rng.random() < 0.2 else []
+            ops, n = [], 0
+            for _ in range(rng.randint(3, maxlen)):
+                r = rng.random()
+                if n < 3 and (r < 0.18 or n == 0 and r < 0.5):
+                    ops.append(['iterStart'])
+                    n += 1
+                elif n and r < 0.62:
+                    ops.append(['iterNext', rng.randrange(n), rng.choice([0, 1, 1, 2, 3, rng.randint(1, np_ + 1)])])
+                elif n and r < 0.68:
+                    ops.append(['iterDrop', rng.randrange(n)])
+                else:
+                    o = random_op(rng, np_)
+                    ops.append(o)
+            cases.append(_mk_live(rng, L, sizes, ops, cap=cap, wrong=wrong, shape='live-random-' + shape, lay=lay))
+    return cases
+
+
+def _drv_ops_live(c):
+    out = []
+    for o in c['ops']:
+        if o[0] == 'iterNext':
+            out.append({'op': 'iterNext', 's': o[1], 'k': o[2]})
+        elif o[0] == 'iterDrop':
+            out.append({'op': 'iterDrop', 's': o[1]})
+        elif len(o) > 1:
+            out.append({'op': o[0], 'a': o[1]})
+        else:
+            out.append({'op': o[0]})
+    return out
+
+
+def _canon_model_live(out, contents):
+    if out['k'] == 'err' and out['v'] == 'closed-handle':
+        return ('err', 'ValueError')                      # ValueError: read of closed file
+    return _canon_model(out, contents)
+
+
+def live_nontrivial(c):
+    """a kept iterator is advanced after something else was done with the object since its last advance (or creation)"""
+    touched = {}
+    n = 0
+    for op in c['ops']:
+        if op[0] == 'iterStart':
+            touched[n] = False
+            n += 1
+        elif op[0] == 'iterNext':
+            if touched.get(op[1]) and op[2] > 0:
+                return True
+            if op[2] > 0:
+                for k in touched:
+                    touched[k] = k != op[1]
+        elif op[0] != 'iterDrop':
+            for k in touched:
+                touched[k] = True
+    return False
+
+
+def evaluate_live(ctx, drv, cases):
+    if not cases:
+        return
+    reqs = [{'op': 'c19.iterHistory', 'L': c['L'], 'sizes': c['sizes'], 'cap': c['cap'], 'wrong': c['wrong'],
+             'ops': _drv_ops_live(c)} for c in cases]
+    replies = drv.run(reqs)
+    results = common.pmap(_run_chunk_live, common.split(cases, common.NPROC * 4))
+    k = -1
+    for chunk in results:
+        for (c, obs, contents) in chunk:
+            k += 1
+            r = replies[k]
+            key = ('live', c['L'], tuple(c['sizes']), c['cap'], tuple(c['wrong']), json.dumps(c['ops']))
+            case = case_view(c)
+            if 'exc' in obs:
+                ctx.case(key=key, nontrivial=False, kind=c['shape'])
+                ctx.violation(f'history raised outside the operations: {obs["exc"]}', case, 'results', obs['exc'])
+                continue
+            hyp = r['hyp']
+            ctx.case(key=key, nontrivial=live_nontrivial(c), kind=c['shape'])
+            ctx.dist['kept-iterators-in-history'] += 1
+            if len(c['sizes']) > c['cap'] + 1:
+                ctx.dist['live:more-files-than-cap+1'] += 1
+            if obs.get('cap_seen') != c['cap']:
+                ctx.violation('max_open_files is not the documented default 10', case, c['cap'], obs.get('cap_seen'))
+                continue
+            if ctx.dist['kept-iterators-in-history'] % 300 == 1:
+                ctx.sample({'case': case, 'model_rows': r['rows'][:4]})
+            impl = [_canon_impl(o['res']) for o in obs['rows']]
+            nopen_reported = False
+            closed = False          # close() / context exit was the last thing that opened or closed files
+            for n, (op, o, i) in enumerate(zip(c['ops'], obs['rows'], impl)):
+                where = {'step': n, 'op': op}
+                row = r['rows'][n]
+                m = _canon_model_live(row['m'], contents)
+                sp = m if row['s'] is None else _canon_model_live(row['s'], contents)
+                und = row.get('undisturbed', True)
+                if op[0] == 'verifyPiece' and sp[0] == 'bool' and not sp[1] \
+                        and _digest_collision(c, sym_orig(c['L'], sum(c['sizes']), c['wrong']), op[1], contents):
+                    sp = m = ('bool', True)
+                if hyp and op[0] != 'iterNext' and row['s'] is not None:
+                    ctx.machinery_error(f'model answer differs from the specification at step {n} ({op[0]} does not depend '
+                                        'on kept iterators)', case)
+                    break
+                fr = _canon_impl(o['fresh']) if 'fresh' in o else None
+                if op[0] == 'iterNext' and row.get('closed'):
+                    # the stream was closed while this iterator was suspended inside a file: what resuming it does then is
+                    # outside the property; the code raises ValueError (read of closed file) and opens nothing — the model
+                    fr = None
+                    sp = m
+                # an iterator nothing has interfered with must go on with the next chunks; every other operation answers as
+                # on a fresh object.  A disturbed iterator: the property demands the same, the code gives what the model
+                # derives from the shared handle (finding D19f)
+                if op[0] == 'iterNext' and not und and i != m:
+                    # another operation has moved or closed the handle this iterator is suspended on (D19f territory): WHICH
+                    # wrong answer comes out depends on things the property does not fix (eviction order, offsets); the
+                    # reference is the model, a different answer — right or wrong — is a broken correspondence
+                    ctx.corr_break('c19.iterHistory:disturbed-iterator-answer', case, {**where, 'model': _short(m)},
+                                   {**where, 'impl': _short(i), 'specification': _short(sp)})
+                    break
+                if i != sp or (fr is not None and i != fr):
+                    what = ('the items a kept iterator yields depend on what else was done with the stream object'
+                            if op[0] == 'iterNext' else 'the answer depends on the history (kept iterators on the object)')
+                    ctx.violation(f'step {n} {op}: {what}', case,
+                                  {**where, 'expected': _short(sp), 'fresh_object': None if fr is None else _short(fr)},
+                                  {**where, 'observed': _short(i), 'model_answer': _short(m), 'undisturbed': und},
+                                  finding_matchers=MATCHERS)
+                    if i != m or und:
+                        break
+                elif hyp and i != m:
+                    # the implementation answers as the specification says where the model derives a deviation
+                    ctx.corr_break('c19.iterHistory', case, {**where, 'model': _short(m)}, {**where, 'impl': _short(i)})
+                    break
+                bound = c['cap'] + 1
+                if o['nfd'] > bound or o['peak'] > bound:
+                    ctx.violation(f'step {n} {op}: more than max_open_files + 1 = {bound} content files open '
+                                  '(every descriptor the stream object caused to be open counts)',
+                                  case, {**where, 'max_open': bound},
+                                  {**where, 'open_after': o['nfd'], 'peak_during': o['peak']}, finding_matchers=MATCHERS)
+                    break
+                if op[0] in ('close', 'ctxExit'):
+                    closed = True
+                elif op[0] not in ('iterDrop', 'iterStart') and not (op[0] == 'iterNext' and op[2] == 0):
+                    closed = closed and o['nfd'] == 0 and row['nopen'] == 0
+                if closed and o['nfd'] != 0:
+                    ctx.violation(f'step {n} {op}: files are open after close()/leaving the context although nothing was read '
+                                  'since (kept iterators must not keep descriptors alive or bring them back)',
+                                  case, {**where, 'open_after': 0}, {**where, 'open_after': o['nfd']},
+                                  finding_matchers=MATCHERS)
+                    break
+                if hyp and o['nfd'] != row['nopen'] and not nopen_reported:
+                    nopen_reported = True
+                    ctx.corr_break('c19.iterHistory:nopen', case, {**where, 'nopen': row['nopen']}, {**where, 'nopen': o['nfd']})
 
 
 def run(ctx, drv):
